@@ -21,6 +21,8 @@
 package compiler
 
 import (
+	"fmt"
+
 	"github.com/gontainer/gontainer-helpers/v3/grouperror"
 	"github.com/gontainer/gontainer/internal/pkg/input"
 	"github.com/gontainer/gontainer/internal/pkg/maps"
@@ -59,6 +61,12 @@ func (s *StepCompileMeta) Process(i input.Input, d *output.Output) error {
 func (s *StepCompileMeta) handleImports(imports map[string]string) error {
 	var errs []error
 	maps.Iterate(imports, func(alias string, import_ string) {
+		// the grammar allows the quoted form, the alias table stores plain paths
+		import_ = syntax.SanitizeImport(import_)
+		if import_ == "" {
+			errs = append(errs, fmt.Errorf("%+q: the current package cannot have an alias", alias))
+			return
+		}
 		errs = append(errs, s.aliasRegisterer.RegisterPrefixAlias(alias, import_))
 	})
 	return grouperror.Prefix("imports: ", errs...)
